@@ -11,6 +11,7 @@ PROP, LEVEL = 'C06', 'exploration'
 OPS_INT = ['u8', 'u16', 'u32', 'u64', 'i8', 'i16', 'i32', 'i64']
 OPS18 = OPS_INT + ['bool', 'arr', 'map', 'iarr', 'imap', 'brk', 'bs', 'bsp', 'tx', 'txp']
 WIDTH = {'u8': 8, 'u16': 16, 'u32': 32, 'u64': 64, 'i8': 8, 'i16': 16, 'i32': 32, 'i64': 64}
+B = 2048      # size of the encoder's staging buffer; replaced by the value the instrumented build reports (query_bufsize)
 BND = [0, 1, 23, 24, 255, 256, 65535, 65536, 2 ** 32 - 1, 2 ** 32, 2 ** 63 - 1, 2 ** 63, 2 ** 64 - 1]
 
 
@@ -39,9 +40,9 @@ def op_line(op, r, k, top=False):
     if op in ('iarr', 'imap', 'brk'):
         return op
     if top:
-        n = [0, 1, 23, 24, 255, 256, 257, 2047, 2048, 2049, 65535, 65536, 65537][k % 13]
+        n = [0, 1, 23, 24, 255, 256, 257, B - 1, B, B + 1, 65535, 65536, 65537][k % 13]
     else:
-        n = [0, 1, 23, 24, 255, 256, 9, 2047, 2048, 2049, 5000][k % 11]
+        n = [0, 1, 23, 24, 255, 256, 9, B - 1, B, B + 1, 2 * B + 904][k % 11]
     return '%sn %d %d' % (op, n, k % 251)
 
 
@@ -135,7 +136,7 @@ def run_scripts(prop, scripts, tag, comp_kind=None):
                     obs['calls'] += 1
                     obs['pairs'].add((opn.rstrip('n') if opn not in OPS_INT else opn, fill))
                     ref = ref_of(desc)
-                    if len(ref) + fill > 2048 and len(ref) > 9:
+                    if len(ref) + fill > B and len(ref) > 9:
                         obs['straddle'] += 1
                     if hookbad:
                         vs.append(Violation(prop, '%s:hook:buffer-accounting' % prop, 'encoder buffer pointer/available mismatch after %s at fill %d' % (desc[:40], fill), {'desc': desc[:200], 'fill': fill}))
@@ -165,13 +166,13 @@ def sweep_scripts(tier, seed):
     for oi, op in enumerate(OPS18):
         for part in range(4 if tier != 'quick' else 1):
             lines = ['open name none @WD@/sw_@I@']
-            levels = range(0, 2049) if tier == 'quick' else range(part, 2049, 4)
+            levels = range(0, B + 1) if tier == 'quick' else range(part, B + 1, 4)
             for L in levels:
                 # near the end of the buffer (where a head may not fit any more) every boundary value is tried
-                nv = 13 if L >= 2028 else nval
+                nv = 13 if L >= B - 20 else nval
                 for k in range(nv):
                     lines.append('fill %d' % L)
-                    lines.append(op_line(op, r, k + (L * (1 if tier == 'quick' else 0) + seed if nv != 13 else 0), top=(L >= 2028)))
+                    lines.append(op_line(op, r, k + (L * (1 if tier == 'quick' else 0) + seed if nv != 13 else 0), top=(L >= B - 20)))
             lines.append('close')
             scripts.append(('sweep-%s-%d' % (op, part), lines, [('@WD@/sw_@I@', 'none')]))
     return scripts
@@ -194,11 +195,11 @@ def exhaustive_small(tier, seed):
 
 def string_scripts(tier, seed):
     scripts = []
-    lens = sorted(set(list(range(0, 40)) + list(range(0, 6145, 97)) + [2038, 2039, 2040, 2045, 2046, 2047, 2048, 2049, 2050, 4095, 4096, 4097, 6143, 6144])) if tier == 'quick' else list(range(0, 6145))
-    levels = [0, 1, 9, 1024, 2039, 2040, 2046, 2047, 2048] if tier == 'quick' else list(range(0, 2049, 64)) + [2039, 2040, 2047]
+    lens = sorted(set(list(range(0, 40)) + list(range(0, 3 * B + 1, 97)) + [B - 10, B - 9, B - 8, B - 3, B - 2, B - 1, B, B + 1, B + 2, 2 * B - 1, 2 * B, 2 * B + 1, 3 * B - 1, 3 * B])) if tier == 'quick' else list(range(0, 3 * B + 1))
+    levels = [0, 1, 9, B // 2, B - 9, B - 8, B - 2, B - 1, B] if tier == 'quick' else list(range(0, B + 1, 64)) + [B - 9, B - 8, B - 1]
     if tier != 'quick':
         # all lengths at 5 levels + every 16th length at every 64th level
-        plan = [(L, n) for L in [0, 1, 2040, 2047, 2048] for n in lens] + [(L, n) for L in levels for n in lens[::16]]
+        plan = [(L, n) for L in [0, 1, B - 8, B - 1, B] for n in lens] + [(L, n) for L in levels for n in lens[::16]]
     else:
         plan = [(L, n) for L in levels for n in lens]
     chunk = 1500
@@ -243,17 +244,37 @@ def sequence_scripts(seed, nseq, salt='C06seq'):
                     b = gen.rbytes(r, r.choice([0, 1, 5, 23, 24, 100, 255, 256, 300]))
                     lines.append('%s %s' % (op, b.hex() or '-'))
                 else:
-                    lines.append('%sn %d %d' % (op, r.choice([0, 1, 24, 700, 2040, 2048, 2049, 4100, 7000]), r.randrange(250)))
+                    lines.append('%sn %d %d' % (op, r.choice([0, 1, 24, 700, B - 8, B, B + 1, 2 * B + 4, 3 * B + 856]), r.randrange(250)))
         lines.append('close')
         scripts.append(('seq-%d' % i, lines, outs))
     return scripts
 
 
 def run_sequences(prop, seed, nseq, tag):
+    query_bufsize()
     return run_scripts(prop, sequence_scripts(seed, nseq, prop + 'seq'), tag)
 
 
+def query_bufsize():
+    """the staging-buffer size of the build under test (so that a changed size is swept completely instead of alarming)"""
+    global B
+    drvd, _ = build.ensure('asan')
+    wd = runner.workdir('c06q')
+    try:
+        sp, rp = os.path.join(wd, 's.txt'), os.path.join(wd, 'r.txt')
+        with open(sp, 'w') as f:
+            f.write('open name none %s/q\nclose\n' % wd)
+        runner.run_tool(os.path.join(drvd, 'vdrv'), ['enc', sp, rp], timeout=120)
+        m = re.search(r'open = ok (\d+)', open(rp).read() if os.path.exists(rp) else '')
+        if m and 64 <= int(m.group(1)) <= (1 << 20):
+            B = int(m.group(1))
+    finally:
+        runner.cleanup(wd)
+    return B
+
+
 def run(tier, seed):
+    query_bufsize()
     scripts = sweep_scripts(tier, seed) + exhaustive_small(tier, seed) + string_scripts(tier, seed) + sequence_scripts(seed, 300 if tier == 'quick' else 5000)
     vs, obs = run_scripts(PROP, scripts, 'c06')
     pairs = obs.pop('pairs')
@@ -263,15 +284,16 @@ def run(tier, seed):
     want = {'u8', 'u16', 'u32', 'u64', 'i8', 'i16', 'i32', 'i64', 'bool', 'arr', 'map', 'iarr', 'imap', 'brk', 'bs', 'bsp', 'tx', 'txp'}
     full = {op: len(per_op.get(op, ())) for op in sorted(want)}
     obs['distinct_op_fill_pairs'] = len(pairs)
-    obs['fill_levels_seen_per_op(of 2049)'] = full
+    obs['fill_levels_seen_per_op(of %d)' % (B + 1)] = full
+    obs['encoder_buffer_size_reported_by_the_build'] = B
     obs['exhaustive_8_16_bit_values'] = True
     inc = None
-    short = [op for op in want if len(per_op.get(op, ())) < 2049]
+    short = [op for op in want if len(per_op.get(op, ())) < B + 1]
     if short:
         inc = 'fill levels not all observed through the hook for: %s' % ','.join(sorted(short))
     cov = dict(evaluations=obs['calls'], distinct_nontrivial=len(pairs),
                rule='one evaluation = one public encoder call whose return value and output bytes are compared with an independent reference encoder; '
-                    'distinct non-trivial = distinct (operation, buffer fill level observed through the hook before the call) pairs; (op, fill) space 18 x 2049 and all 8/16-bit values enumerated completely, '
+                    'distinct non-trivial = distinct (operation, buffer fill level observed through the hook before the call) pairs; (op, fill) space 18 x (buffer size + 1) and all 8/16-bit values enumerated completely, '
                     'wider values / strings / call sequences sampled',
                samples=[{'script': s[1][:6]} for s in scripts[:1]] + [{'script': scripts[-1][1][:12]}], observed=obs, exhaustive=False)
     return dict(violations=vs, coverage=cov, inconclusive=inc)
